@@ -75,6 +75,7 @@ type Path struct {
 
 	// environment-channel model
 	env *envState
+	stubs map[string]Value
 
 	// results
 	asserts   map[string]*assertStat
